@@ -297,7 +297,7 @@ impl Property for C10 {
          2-3 threads x 2-5 operations under a generated schedule (walk / PCT / window), or one thread with up to 40 operations \
          (sequential history). Operations: get-or-create (slice or map form) binding a handle, inc_by(2^i) / get through a handle, \
          remove (slice or map form), reset, collect, a wrong-arity request; 1.5% of the concurrent programs run on a vector that \
-         already holds 1000-1299 untouched background children (each collection must show every one of them exactly once with value \
+         already holds 1000-1299 or 4097-4396 untouched background children (each collection must show every one of them exactly once with value \
          0). Oracle: exhaustive linearizability search against the map \
          model of DESIGN.md appendix C (tuple -> child, child -> value, handle -> child; handles of removed children stay usable; \
          re-created children start from zero; collect shows every tuple once; a concurrent collect is judged as one atomic read of \
@@ -346,7 +346,7 @@ impl Property for C10 {
         };
         let sequential = src.chance(64);
         // 1.5% of concurrent programs run on a large vector (the library imposes no limit on the number of children)
-        let bulk = if !sequential && src.chance(4) { 1000 + src.below(300) } else { 0 };
+        let bulk = if !sequential && src.chance(4) { [1000, 4097][src.below(2)] + src.below(300) } else { 0 };
         let sys = Sys { v, names: names.clone(), handles: Arc::new(Mutex::new(HashMap::new())), bulk };
         for k in 0..bulk {
             let mut t: Tuple = vec![format!("{}{}", BG, k)];
@@ -354,7 +354,7 @@ impl Property for C10 {
             sys.get(&t, false).expect("background child");
         }
         if bulk > 0 {
-            rep.class("large-vector(1000+ untouched background children)");
+            rep.class(if bulk > 4000 { "large-vector(4097+ untouched background children)" } else { "large-vector(1000+ untouched background children)" });
         }
         let nthreads = if sequential { 1 } else { 2 + src.below(2) };
         let mut prog: Vec<Vec<VOp>> = vec![];
